@@ -207,9 +207,14 @@ def gen_exclude_case(rng, n):
     pools = [(["xq_logs", "xq_audit", "xq_users"], ["xq_*", "xq_?*", "[x]q_*", "xq_*[type=table]"]),
              (["zz_tmp", "zz_old"], ["zz_*", "zz_???", "z[z]_*"])]
     names, globs = pools[rng.randrange(2)]
+    # how the patterns reach Atlas: --exclude flags, the env block's `exclude = […]` list (2+ patterns, the last one
+    # protecting a table that only the database has), the same behind a first pattern that matches nothing, or both
+    source = {1: "env", 5: "env", 3: "env-decoy", 7: "both"}.get(n % 8, "flag")
     k = rng.randint(1, len(names))
+    if source != "flag":
+        k = max(2, k)
     ex_names = rng.sample(names, k)
-    style = rng.choice(["literal", "glob", "selector"])
+    style = rng.choice(["literal", "glob", "selector"] if source == "flag" else ["literal", "selector"])
     if style == "glob":
         patterns = [rng.choice(globs)]
         ex_names = list(names) if rng.random() < 0.5 else ex_names  # the glob covers every name of the pool anyway
@@ -221,10 +226,14 @@ def gen_exclude_case(rng, n):
     ref_target = None
     for x in ex_names:
         placement[x] = rng.choice(["db", "want", "both_same", "both_diff"])
+    pickable = ex_names
+    if source != "flag":
+        placement[ex_names[-1]] = "db"
+        pickable = ex_names[:-1]
     # a managed table references an excluded table that is present on both sides
     both = [x for x in ex_names if placement[x].startswith("both")]
     if not both and rng.random() < 0.7:
-        x = rng.choice(ex_names)
+        x = rng.choice(pickable)
         placement[x] = rng.choice(["both_same", "both_diff"])
         both = [x]
     if both and rng.random() < 0.8:
@@ -281,7 +290,9 @@ def gen_exclude_case(rng, n):
             cur.append(t)
         if fate != "dropped":
             want.append(w)
-    return {"n": n, "kind": "exclude", "cur": cur, "want": want, "patterns": patterns, "excluded": sorted(ex_names),
+    if source == "env-decoy":
+        patterns = ["nomatch_*"] + patterns
+    return {"n": n, "kind": "exclude", "source": source, "cur": cur, "want": want, "patterns": patterns, "excluded": sorted(ex_names),
             "placement": placement, "fates": changes, "ref_target": ref_target, "fk_from_db_only": fk_from_db_only}
 
 
@@ -309,7 +320,7 @@ def gen_sub_case(rng, n):
         pats = [["m_s.secret", "*.secret", "m_s.secret[type=column]", "m_s.s?cret"][(n // len(SUB_FATES)) % 4],
                 rng.choice(["m_s.ix_secret", "m_s.ix_*[type=index]", "*.ix_secret[type=index]"])]
         return {"n": n, "kind": "exclude-sub", "cur": [ref, t, other], "want": [copy.deepcopy(ref), w, copy.deepcopy(other)], "patterns": pats,
-                "fate": fate, "nodemand": nodemand, "secret_in_file": True}
+                "fate": fate, "nodemand": nodemand, "secret_in_file": True, "source": "env" if n % 2 else "flag"}
     t = table("m_s", [("a", "text", False), ("b", "integer", False), ("secret", "text", False)], idx=[["ix_secret", ["a"], False]])
     w = table("m_s", [("a", "text", False), ("b", "integer", False)])
     if fate == "addcol":
@@ -320,7 +331,8 @@ def gen_sub_case(rng, n):
         col(w, "b")[1] = "text"
     pats = [rng.choice(["m_s.secret", "*.secret", "m_s.secret[type=column]", "m_s.s?cret"]),
             rng.choice(["m_s.ix_secret", "m_s.ix_*[type=index]", "*.ix_secret[type=index]"])]
-    return {"n": n, "kind": "exclude-sub", "cur": [t, other], "want": [w, copy.deepcopy(other)], "patterns": pats, "fate": fate}
+    return {"n": n, "kind": "exclude-sub", "cur": [t, other], "want": [w, copy.deepcopy(other)], "patterns": pats, "fate": fate,
+            "source": "env" if n % 2 else "flag"}
 
 
 SKIP_KINDS = ["drop_table", "drop_column", "drop_index", "add_table", "add_column", "add_index", "modify_column",
@@ -468,3 +480,22 @@ def project_file(case):
                 'env "other" {\n  url = "sqlite://other.db"\n  diff {\n    skip {\n      add_table = true\n    }\n  }\n}\n'
                 'env "e" {\n%slint {\n  latest = 2\n}\ndiff {\n%s}\n}\n' % (env, inner))
     return 'env "e" {\n%sdiff {\n%s}\n}\n' % (env, inner)
+
+
+def exclude_invocation(case):
+    """(atlas.hcl text or None, extra args for apply / inspect / diff) for the way the case supplies its patterns."""
+    import json
+    src = case.get("source", "flag")
+    flags = []
+    for p in case["patterns"]:
+        flags += ["--exclude", p]
+    if src == "flag":
+        return None, flags, False
+    envp = case["patterns"]
+    if src == "both":
+        # flags win over the env list (maySetFlag: "not set by the user via the command line"); the env list is a prefix
+        # of the flag list, so that the expectation also holds if both were merged
+        envp = case["patterns"][:max(1, len(case["patterns"]) - 1)]
+    proj = ('env "e" {\n  url = "sqlite://x.db"\n  src = "file://want.hcl"\n  dev = "sqlite://dev?mode=memory"\n  exclude = [%s]\n}\n'
+            % ", ".join(json.dumps(p) for p in envp))
+    return proj, (flags if src == "both" else []), True
